@@ -341,7 +341,7 @@ def _model_classes(proj):
 
 def alias_rules(check):
     pid, proj = check.pid, check.proj
-    if pid not in ("C01", "C02", "C15", "C16", "C17", "C19", "C20"):
+    if pid not in ("C01", "C02", "C10", "C13", "C15", "C16", "C17", "C19", "C20"):
         return
     alias_example()
     an = alias_analysis(proj)
@@ -374,6 +374,25 @@ def alias_rules(check):
                                     f.loc(), key="returns-stored")
         if not bad:
             check.ok("VAR-PURE", "%d conversion / output-variable functions" % n, "none changes (an element of) its argument in place, directly or through the functions it calls; built-in example: 1 in-place change through a returned alias reported, its copying twin silent")
+    if pid in ("C02", "C10", "C13", "C01"):
+        # LOCAL-ALIAS: `a = b = <new array>` makes two names for ONE array; an in-place operator on one of them (a -= c) changes
+        # what the other denotes too -- in the flux kernels the two names are two different wave speeds / states
+        nk = badk = 0
+        seenk = set()
+        for ci in _model_classes(proj):
+            reg = ci.registries.get("_numfluxdict")
+            for f in (list(reg["entries"].values()) if reg else []):
+                if f.qualname in seenk:
+                    continue
+                seenk.add(f.qualname)
+                nk += 1
+                for ln, nm, other, text in an.shared_inplace.get(f.qualname, []):
+                    badk += 1
+                    check.violation("LOCAL-ALIAS", f.qualname, "`%s` (line %d) works in place on an array that the name `%s` denotes as well (they were bound together: `%s = %s = ...` / one assigned from the other, no copy): `%s` changes with it -- the two quantities are the same array from here on" % (text, ln, other, nm, other, other),
+                                    "%s:%d" % (f.module.relpath, ln), key="shared-inplace")
+                    break
+        if nk and not badk:
+            check.ok("LOCAL-ALIAS", "%d flux kernels" % nk, "no in-place operator on an array that another live local name denotes")
     if pid == "C02":
         # FLUX-PURE: a numerical flux is a FUNCTION of the two states: it leaves them as it found them (the caller evaluates the
         # mirrored problem, the physical flux, the next flux name from the same arrays) and returns arrays of its own (a result
